@@ -79,7 +79,7 @@ fn drop<T>(x: T) {}
 //@ SUBST `. mark_as_deleted ( )` ==> `.mark_as_deleted(Ghost(published))`
 //@ SUBST `. upgrade_version ( $1 )` ==> `.upgrade_version($1 Tracked(fx))`
 
-//@ FROM src/compaction/worker.rs :: - :: fn drop_tables :: OBL C15.6, C19.2, C20.5, C16.8
+//@ FROM src/compaction/worker.rs :: - :: fn drop_tables :: OBL C15.6, C19.2, C20.5, C16.8, C05.11
 //@ SUBST `ids_to_drop . iter ( ) . copied ( )` ==> `ids_iter(ids_to_drop)`
 //@ SUBST `ids_to_drop . iter ( ) . map ( $1 ) . collect :: < Option < Vec < _ > > > ( )` ==> `collect_tables(ids_to_drop, &version_history_lock)` :: FORBID mark_as_deleted upgrade_version fx
 //@ SUBST `| current | { $1 }` ==> `drop_edit(ids_to_drop, &mut dropped_blob_files)` :: FORBID mark_as_deleted upgrade_version fx
